@@ -293,7 +293,7 @@ func checkC09(p *Program, r *Report) {
 					break
 				}
 				if iff, ok := id.Instrs[len(id.Instrs)-1].(*ssa.If); ok {
-					if bo, ok := iff.Cond.(*ssa.BinOp); ok && bo.Op == token.NEQ && isNilConst(bo.Y) && m.cellLoad(bo.X, hb) == "err" && (id.Succs[0] == d || id.Succs[0].Dominates(d)) {
+					if bo, ok := iff.Cond.(*ssa.BinOp); ok && bo.Op == token.NEQ && isNilConst(bo.Y) && m.cellLoad(bo.X, hb) == "err" && edgeOnly(id, 0, d) {
 						if tryE.call.Block() == id || tryE.call.Block().Dominates(id) {
 							okDep = true
 						}
